@@ -45,6 +45,8 @@ def gen_case(rng):
         c["delays"] = [rng.randint(0, 2) for _ in range(nants)]
     # half of the cases leave the filterbank's response estimate to the backend (made lazily, mid-stream, the first time a sub-block is requantised)
     c["lazy_stds"] = rng.random() < 0.5
+    if c["num_pols"] == 2 and rng.random() < 0.3:
+        c["npol4"] = True          # the input describes its two polarisations the telescope way: NPOL = 4
     return c
 
 
@@ -83,7 +85,7 @@ def run(ctx):
         impl.extend(part)
     for c, r in zip(cases, impl):
         small = dict((k, v) for k, v in c.items() if not k.startswith("model_"))
-        ctx.tally("response_estimate", "lazy (by the backend, mid-stream)" if c.get("lazy_stds") else "before recording")
+        ctx.tally("input_npol_card", 4 if c.get("npol4") else c["num_pols"]); ctx.tally("response_estimate", "lazy (by the backend, mid-stream)" if c.get("lazy_stds") else "before recording")
         ncalls = max((len(v) for v in r.get("gains", {}).values()), default=0)
         ctx.count(small, nontrivial=ncalls >= 2)
         ctx.tally("bits/pols/ants", "%d/%d/%d" % (c["nbits"], c["num_pols"], c["nants"])); ctx.tally("directio", c["directio"])
@@ -97,7 +99,10 @@ def run(ctx):
         for key, msg in r["fails"]:
             ctx.impl_violation(key, msg, small)
         # framing preserved
-        if r["in_hdr"] != r["out_hdr"] or r["out_ndata"] != [c["block_size"]]:
+        def npol_norm(hs):
+            # NPOL = 4 is the telescope's way of writing two polarisations (four real streams); setigen writes 2 and reads both as two
+            return [dict(h, NPOL=("2" if str(h.get("NPOL")).strip() == "4" else h.get("NPOL"))) for h in hs]
+        if npol_norm(r["in_hdr"]) != npol_norm(r["out_hdr"]) or r["out_ndata"] != [c["block_size"]]:
             ctx.impl_violation("framing", "output framing %s / data sizes %s differ from the input's %s" % (r["out_hdr"], r["out_ndata"], r["in_hdr"]), small)
         want = min(c["requested"], c["in_blocks"]) if c["requested"] is not None else c["in_blocks"]
         if r["n_out"] != want:
